@@ -87,6 +87,31 @@ func runC31(c *Ctx) {
 	// D calls and their arguments
 	dM := ViaGlobal(gDownload)
 	dcalls := CallsMatching(dl, dM)
+	// the calls may be made through one local closure (fetch := func(offset, opts) error { err := download(...); ...; return err })
+	isVerdict := VRes(0, dM)
+	if len(dcalls) == 0 {
+		for _, hc := range localCalls(dl) {
+			if hcs := CallsMatching(hc.h, dM); len(hcs) > 0 && hc.h.Parent() == dl {
+				dcalls = append(dcalls, hcs...)
+				h := hc.h
+				allVerdicts := true
+				for _, lf := range ReturnLeaves(h, -1) {
+					if !VRes(0, dM)(lf.Val) {
+						allVerdicts = false
+					}
+				}
+				if allVerdicts {
+					isVerdict = func(v ssa.Value) bool {
+						if VRes(0, dM)(v) {
+							return true
+						}
+						cc, _, ok := CallResult(v)
+						return ok && cc.Common().StaticCallee() == h
+					}
+				}
+			}
+		}
+	}
 	for i, dc := range dcalls {
 		a := dc.Common().Args
 		ok := len(a) == 10 && dlInfoSha(dl, 4)(a[2]) && wVal(a[6])
@@ -96,7 +121,32 @@ func runC31(c *Ctx) {
 		c.Undecided("store.(*Store).Download#download-calls", dl.Pos(), "no call through the download variable found")
 	}
 	// E edge: expected == actual of the local re-hash
-	hashEq := Cmp("downloadInfo.Sha3_384==actualSha3", dlInfoSha(dl, 4), token.EQL, VRes(0, ToFn(sprintf)))
+	// the digest of the local re-hash: fmt.Sprintf("%x", h.Sum(nil)), computed in Download or handed back by a private helper
+	isActual := func(v ssa.Value) bool {
+		if VRes(0, ToFn(sprintf))(v) {
+			return true
+		}
+		hc, hi, ok := CallResult(v)
+		if !ok {
+			return false
+		}
+		h := hc.Common().StaticCallee()
+		if h == nil || h.Pkg != dl.Pkg || len(h.Blocks) == 0 {
+			return false
+		}
+		n := 0
+		for _, lf := range ReturnLeaves(h, hi) {
+			if s, isC := ConstString(lf.Val); isC && s == "" {
+				continue
+			}
+			n++
+			if !VRes(0, ToFn(sprintf))(lf.Val) {
+				return false
+			}
+		}
+		return n > 0
+	}
+	hashEq := Cmp("downloadInfo.Sha3_384==actualSha3", dlInfoSha(dl, 4), token.EQL, isActual)
 	// final gates: err==nil tests from which the rename is reachable without another such test
 	gateCut := AtomEdges(errNil)
 	nGate := 0
@@ -137,7 +187,7 @@ func runC31(c *Ctx) {
 			for k, st := range stores {
 				construct := fmt.Sprintf("store.(*Store).Download#final-gate#%d-def#%d", nGate, k+1)
 				switch {
-				case VRes(0, dM)(st.Val):
+				case isVerdict(st.Val):
 					c.Holds(construct, st.Pos(), "definition is the verdict of download(…)")
 				case isProvablyNonNilIface(st.Val):
 					c.Holds(construct, st.Pos(), "definition is a constructed (non-nil) error: cannot pass the nil test")
@@ -185,29 +235,51 @@ func runC31(c *Ctx) {
 	truncObj := P.FuncObj("os.(*File).Truncate")
 	hashSum := P.FuncObj("hash.Hash.Sum")
 	nRehash := 0
-	for _, sc := range CallSites(dl, sprintf) {
-		// actualSha3 := fmt.Sprintf("%x", h.Sum(nil))
-		els := VarargElems(sc.Common().Args[1])
-		if len(els) != 1 {
-			continue
-		}
-		sumCall, _, ok := CallResult(stripIfaceVal(els[0]))
-		if !ok || !ToFn(hashSum)(sumCall) {
-			continue
-		}
-		nRehash++
-		h := CallRecv(sumCall)
-		fed := false
-		for _, cc := range CallSites(dl, ioCopyObj) {
-			a := cc.Common().Args
-			if stripIfaceVal(a[0]) == stripIfaceVal(h) || Strip(stripIfaceVal(a[0])) == Strip(stripIfaceVal(h)) {
-				if wVal(stripIfaceVal(a[1])) {
-					fed = true
-					c.Before(fmt.Sprintf("store.(*Store).Download#rehash-from-start#%d", nRehash), dl, SinkCallM(CallWhere(RecvWhere(ToFn(seekObj), wVal), 1, VConstInt(0))), "w.Seek(0, SEEK_SET)", cc, nil)
+	scanRehash := func(rehashFn *ssa.Function) {
+		for _, sc := range CallSites(rehashFn, sprintf) {
+			// actualSha3 := fmt.Sprintf("%x", h.Sum(nil))
+			els := VarargElems(sc.Common().Args[1])
+			if len(els) != 1 {
+				continue
+			}
+			sumCall, _, ok := CallResult(stripIfaceVal(els[0]))
+			if !ok || !ToFn(hashSum)(sumCall) {
+				continue
+			}
+			nRehash++
+			h := CallRecv(sumCall)
+			fed := false
+			for _, cc := range CallSites(rehashFn, ioCopyObj) {
+				a := cc.Common().Args
+				if stripIfaceVal(a[0]) == stripIfaceVal(h) || Strip(stripIfaceVal(a[0])) == Strip(stripIfaceVal(h)) {
+					if wVal(stripIfaceVal(a[1])) || wVal(Strip(stripIfaceVal(a[1]))) {
+						fed = true
+						c.Before(fmt.Sprintf("store.(*Store).Download#rehash-from-start#%d", nRehash), rehashFn, SinkCallM(func(ci ssa.CallInstruction) bool {
+							if CallWhere(RecvWhere(ToFn(seekObj), wVal), 1, VConstInt(0))(ci) {
+								return true
+							}
+							// through an io.Seeker the temp file was handed over as
+							k := ci.Common()
+							return k.IsInvoke() && k.Method.Name() == "Seek" && len(k.Args) == 2 && VConstInt(0)(k.Args[0]) && (wVal(stripIfaceVal(k.Value)) || wVal(Strip(stripIfaceVal(k.Value))))
+						}), "w.Seek(0, SEEK_SET)", cc, nil)
+					}
 				}
 			}
+			c.Check(fed, fmt.Sprintf("store.(*Store).Download#rehash-whole-file#%d", nRehash), sc.Pos(), "the digest compared is that of io.Copy(h, w) over the whole temp file", "the digest of the already complete partial file is not computed with io.Copy(h, w) over the whole file (a bounded copy hashes only a prefix: trailing bytes are never checked and the over-long file is renamed to the target)")
 		}
-		c.Check(fed, fmt.Sprintf("store.(*Store).Download#rehash-whole-file#%d", nRehash), sc.Pos(), "the digest compared is that of io.Copy(h, w) over the whole temp file", "the digest of the already complete partial file is not computed with io.Copy(h, w) over the whole file (a bounded copy hashes only a prefix: trailing bytes are never checked and the over-long file is renamed to the target)")
+	}
+	scanRehash(dl)
+	if nRehash == 0 {
+		// the re-hash may live in a helper, analysed with its parameters standing for the arguments Download passes
+		for _, hc := range localCalls(dl) {
+			liftCtx = append(liftCtx, liftFrame{hc.h, hc.cc})
+			before := nRehash
+			scanRehash(hc.h)
+			if nRehash > before {
+				c.touch(hc.h)
+			}
+			liftCtx = liftCtx[:len(liftCtx)-1]
+		}
 	}
 	if nRehash == 0 {
 		c.Undecided("store.(*Store).Download#rehash", dl.Pos(), "the local re-hash (fmt.Sprintf(\"%x\", h.Sum(nil))) was not found")
@@ -222,7 +294,7 @@ func runC31(c *Ctx) {
 				continue
 			}
 			for _, dc := range dcalls {
-				if !(ReachQ{Fn: dl, From: &Loc{b.Succs[si], -1}, Sink: SinkIs(dc)}).Run().Found {
+				if !(ReachQ{Fn: dl, From: &Loc{b.Succs[si], -1}, Sink: SinkIs(dc), Descend: true}).Run().Found {
 					continue
 				}
 				nRetry++
@@ -233,13 +305,43 @@ func runC31(c *Ctx) {
 					{"w.Truncate(0)", CallWhere(RecvWhere(ToFn(truncObj), wVal), 1, VConstInt(0))},
 					{"w.Seek(0, ...)", CallWhere(RecvWhere(ToFn(seekObj), wVal), 1, VConstInt(0))},
 				} {
-					q := ReachQ{Fn: dl, From: &Loc{b.Succs[si], -1}, CutInstr: SinkCallM(step.m), Sink: SinkIs(dc)}
+					q := ReachQ{Fn: dl, From: &Loc{b.Succs[si], -1}, CutInstr: SinkCallM(step.m), Sink: SinkIs(dc), Descend: true}
 					r := q.Run()
 					c.Check(!r.Found, fmt.Sprintf("store.(*Store).Download#retry-from-empty-file:%s#%d", step.name, nRetry), dc.Pos(), step.name+" precedes the retry", "after a digest mismatch the download is retried without "+step.name+" on some path: bytes of the rejected body beyond the new one stay in the file, which then passes the (new-bytes-only) digest check and is renamed to the target: "+P.PathString(r.Path))
 				}
 				// the retry restarts at offset 0
 				a := dc.Common().Args
-				c.Check(len(a) == 10 && VConstInt(0)(a[7]), fmt.Sprintf("store.(*Store).Download#retry-offset-0#%d", nRetry), dc.Pos(), "the retry downloads from offset 0", "the retry after a digest mismatch does not restart at offset 0")
+				offZero := len(a) == 10 && VConstInt(0)(a[7])
+				if prm, isP := a[7].(*ssa.Parameter); len(a) == 10 && isP && dc.Parent() != dl {
+					// download() is called inside a local closure with the closure's offset parameter:
+					// the call of the closure that is reached after the mismatch passes 0
+					h := dc.Parent()
+					pi := -1
+					for j, hp := range h.Params {
+						if hp == prm {
+							pi = j
+						}
+					}
+					offZero = pi >= 0
+					nw := 0
+					for _, wb := range dl.Blocks {
+						for _, win := range wb.Instrs {
+							wc, ok := win.(ssa.CallInstruction)
+							if !ok || wc.Common().StaticCallee() != h {
+								continue
+							}
+							if !(ReachQ{Fn: dl, From: &Loc{b.Succs[si], -1}, Sink: SinkIs(wc)}).Run().Found {
+								continue
+							}
+							nw++
+							if pi < 0 || pi >= len(wc.Common().Args) || !VConstInt(0)(wc.Common().Args[pi]) {
+								offZero = false
+							}
+						}
+					}
+					offZero = offZero && nw > 0
+				}
+				c.Check(offZero, fmt.Sprintf("store.(*Store).Download#retry-offset-0#%d", nRetry), dc.Pos(), "the retry downloads from offset 0", "the retry after a digest mismatch does not restart at offset 0")
 			}
 		}
 	}
